@@ -285,6 +285,20 @@ def pure(fn):
     return fn
 
 
+def writes(*fields):
+    """loop invariant of a loop whose body writes the named heap fields (e.g. "list.items"): they are havoced at the loop
+    head; the invariant states what is known about them, typically with heap_unchanged(loop_entry(), ...)"""
+    def deco(fn):
+        fn.__writes__ = list(fields)
+        return fn
+    return deco
+
+
+def loop_entry():
+    """ghost: the heap when the loop was entered (proof-only)"""
+    return None
+
+
 def effectful(fn):
     """callee summary with ghost effects: executed on every call (never merged / cached)"""
     fn.__effectful__ = True
